@@ -161,6 +161,9 @@ func routerSession1(r *rand.Rand, k routerKnobs, emit Emit) {
 		if k.treq {
 			emit("TREQ %s %s%s", hx(method), hx(path), h)
 		}
+		if k.rawPaths {
+			emit("IREQ %s %s%s", hx(method), hx(path), h)
+		}
 	}
 	for i := 0; i < n; i++ {
 		var rt gRoute
